@@ -6,6 +6,29 @@ HERE = os.path.dirname(os.path.dirname(os.path.abspath(__file__)))
 PROPS = [json.loads(l)['id'] for l in open(os.path.join(HERE, 'properties.jsonl'))]
 
 CHECKS = {
+ 'C01': dict(category='proof', design_ref='DESIGN.md section 4 (C01 / C19), Appendix B',
+    text='The real loop body of LuaMinifyTokenWriter.to_lines (plus the helper methods it calls, inlined) is executed symbolically '
+         'once per (abstract control state x refined token class) on every run, which yields the minifier\'s transition relation '
+         '(chunks emitted, next control state); the extraction itself checks that the successor is a function of the abstraction '
+         '(token class, first/last byte class w.r.t. the byte constants of the writer), forking on text-dependent flags. The '
+         'reachable control x ghost space is then explored exhaustively (finite, so token sequences of every length are covered): '
+         'every significant token is emitted with its own text (names through the factory), nothing but blanks/newlines in '
+         'between, a line break is kept wherever a statement can end and none is inserted, and no two tokens emitted without a '
+         'separator FUSE -- where FUSE is decided by the regular-language back end for ALL texts of each pair of LexSpec token '
+         'classes (maximal munch over the whole lexical grammar, both admitted numeral readings).',
+    note='No-fusion is demanded only for class pairs made adjacent by a witness program the real parser accepts on this run '
+         '(10k generated programs). String VALUE preservation is C06, renaming is C02. The stats token count and the end-to-end '
+         're-lexing are additionally exercised by a bounded native differential (labelled bounded).',
+    technique='contract-based deductive verification: symbolic execution of the real loop body into a finite transition relation + exhaustive state exploration + regular-language decision procedure (product automata) for token fusion'),
+ 'C19': dict(category='proof', design_ref='DESIGN.md section 4 (C01 / C19)',
+    text='On the transition relation extracted from the real loop body (see C01), exhaustive exploration proves for token '
+         'sequences of every length: each of the first two comments that precede any code is emitted verbatim followed by a '
+         'newline, nothing at all is emitted before or between them (so they are the first lines of the output), every other '
+         'comment emits nothing (never becomes code); that code never becomes a comment is the no-fusion obligation of C01 '
+         '(pairs "-" "-" and "/" "/" are in FUSE), which this check also discharges.',
+    note='Header shape variations (blank lines, spaces, comment kinds, code on the same line) are all token sequences over the '
+         'abstract classes and therefore inside the exploration. get_title/get_byline themselves are not under contract.',
+    technique='contract-based deductive verification: symbolic execution of the real loop body into a finite transition relation + exhaustive state exploration (+ REG no-fusion)'),
  'C07': dict(category='proof', design_ref='DESIGN.md section 4 (C07), Appendix B',
     text='For the default lexer state: the real ordered matcher table (patterns taken from the compiled objects of the real '
          'module, parsed with CPython\'s own regex parser) and the real dispatch chain of _process_token (read from its AST) '
